@@ -32,7 +32,8 @@ RULES = {
 
 def nonzero_steps(interp, node, fr, value):
     # assumption of the closed-form rules: no generated step is zero (positive base step, finite ratio)
-    if ast.unparse(node) == '(np.abs(step) > 0).all()':
+    from ..dv import is_nonzero_step_test
+    if is_nonzero_step_test(interp, node, fr, value):
         return True
     return None
 
